@@ -396,7 +396,9 @@ func cachingHandler(router proxy.Router, logger *apexlog.Logger, conf *config.Co
 						return
 					}
 				}
-				if dirs.DoNotCache() {
+				// The storage writer decides on the header the client is sent, response_headers of the rule included:
+				// a response it would refuse to store must not go through it, the client would be sent no body
+				if dirs.DoNotCache() || caching.GetCacheControlDirectives(rf.ResponseHeaders).DoNotCache() {
 					alwaysInclude.Set(caching.HeaderRrrouterCacheStatus, "uncacheable")
 					cache.Finish(key, logger)
 					writeBodyFunc = writeBody
